@@ -20,6 +20,7 @@ import (
 	"github.com/olric-data/olric/internal/discovery"
 	"github.com/olric-data/olric/internal/dmap"
 	"github.com/olric-data/olric/internal/verif/sched"
+	vsync "github.com/olric-data/olric/internal/verif/shim/vsync"
 	"github.com/olric-data/olric/internal/verif/simnet"
 	"github.com/olric-data/olric/internal/verif/world"
 )
@@ -43,6 +44,9 @@ type Opts struct {
 	TTL        time.Duration
 	// NoAutoDeliver: membership events stay queued until the engine delivers them.
 	NoAutoDeliver bool
+	// Async: ReplicationMode = asynchronous. The replication goroutines a Put starts are queued and
+	// run when the engine calls DeliverAsync (sequential engines only).
+	Async bool
 }
 
 func (o Opts) withDefaults() Opts {
@@ -83,6 +87,7 @@ type Member struct {
 
 type Cluster struct {
 	O       Opts
+	pending []func() // queued asynchronous replication calls (Opts.Async)
 	Members []*Member // every incarnation ever started, in start order
 	nextIdx int
 	ccSeq   int
@@ -115,6 +120,10 @@ func New(o Opts) *Cluster {
 	world.Reset()
 	simnet.Reset()
 	c := &Cluster{O: o}
+	vsync.Spawn = nil
+	if o.Async {
+		vsync.Spawn = func(f func()) { c.pending = append(c.pending, f) }
+	}
 	for i := 0; i < o.N; i++ {
 		if _, err := c.StartMember(c.nextIdx); err != nil {
 			panic(fmt.Sprintf("simcluster: start member %d: %v", i, err))
@@ -153,6 +162,9 @@ func (c *Cluster) newConfig(idx int) *config.Config {
 	cfg := config.New("local")
 	cfg.PartitionCount = o.Partitions
 	cfg.ReplicaCount = o.Replicas
+	if o.Async {
+		cfg.ReplicationMode = config.AsyncReplicationMode
+	}
 	cfg.WriteQuorum = o.WriteQ
 	cfg.ReadQuorum = o.ReadQ
 	cfg.MemberCountQuorum = int32(o.MemberQ)
@@ -280,6 +292,19 @@ func (c *Cluster) DeliverAll() {
 		}
 	}
 	panic("simcluster: membership events never drain")
+}
+
+// DeliverAsync runs the queued asynchronous replication calls in the order they were started and
+// returns how many there were.
+func (c *Cluster) DeliverAsync() int {
+	n := 0
+	for len(c.pending) > 0 {
+		f := c.pending[0]
+		c.pending = c.pending[1:]
+		f()
+		n++
+	}
+	return n
 }
 
 // Quiesce waits for goroutines spawned by handlers.
